@@ -1,6 +1,7 @@
 (* C02 property theorems: statements only, each closed by [exact]. *)
 From Boltons Require Import Lib.Prelude Lib.C02_Syntax Spec.C02_Spec Model.C02_Model
   Model.C02_PtrModel Model.C02_PtrCache Proofs.C02_PtrLemmas Proofs.C02_PtrRep Proofs.C02_PtrSim Check.C02_Check
+  Model.C02_PtrInterp Gen.C02_Gen Proofs.C02_GenObl
   Proofs.C02_Lists Proofs.C02_Inv Proofs.C02_Heap Proofs.C02_Thms Proofs.C02_Counters Proofs.C02_Recency.
 Close Scope N_scope.
 Open Scope nat_scope.
@@ -265,3 +266,38 @@ Example C02_update_from_inhabited :
                           On 1 (SetItem 3 30); UpdateFrom 1 0] in
   map ring h = [[(1, 10); (2, 20)]; [(3, 30); (1, 10); (2, 20)]] /\ map hit h = [3%N; 0%N].
 Proof. vm_compute. split; reflexivity. Qed.
+
+(* ---- (T) the pointer-level helpers ARE the current source ------------------------------------- *)
+(* coq/Gen/C02_Gen.v is regenerated on every run from the ast of boltons/cacheutils.py
+   (harness/translators/c02_helpers.py, fail-closed): the bodies of the five
+   linked-list helpers as programs of the straight-line subset interpreted by
+   Model/C02_PtrInterp.v.  Running them is exactly the pointer-level model the
+   theorems above are about; an edit that changes a read or a write of a helper
+   makes one of these fail to compile. *)
+Theorem C02_gen_init_ll : forall pr k v,
+  run_helper gen_init_ll pr k v = Some (p_init (pr_heap pr) (pr_fresh pr), DNone).
+Proof. exact gen_init_ll_ok. Qed.
+Print Assumptions C02_gen_init_ll.
+
+Theorem C02_gen_move_to_front : forall pr k v,
+  run_helper gen_move_to_front pr k v
+  = match p_move_to_front pr k with Some (pr', n) => Some (pr', DCell n) | None => None end.
+Proof. exact gen_move_to_front_ok. Qed.
+Print Assumptions C02_gen_move_to_front.
+
+Theorem C02_gen_add_to_front : forall pr k v,
+  run_helper gen_add_to_front pr k v = Some (p_add_to_front pr k v, DNone).
+Proof. exact gen_add_to_front_ok. Qed.
+Print Assumptions C02_gen_add_to_front.
+
+Theorem C02_gen_evict : forall pr k v,
+  run_helper gen_evict pr k v
+  = match p_evict pr k v with Some (pr', e) => Some (pr', DKeyO (Some e)) | None => None end.
+Proof. exact gen_evict_ok. Qed.
+Print Assumptions C02_gen_evict.
+
+Theorem C02_gen_remove : forall pr k v,
+  run_helper gen_remove pr k v
+  = match p_remove pr k with Some pr' => Some (pr', DNone) | None => None end.
+Proof. exact gen_remove_ok. Qed.
+Print Assumptions C02_gen_remove.
